@@ -101,7 +101,17 @@ def lift(v):
     if isinstance(v, z3.ExprRef):
         return v
     if isinstance(v, TFloat):
-        return v.term
+        t = v.term
+        ctx = Ctx.cur
+        if ctx is not None and not is_num(t):
+            key = ("tfloat", t.get_id())
+            if key not in ctx.memo:
+                # numeric enclosure of a transcendental constant: the float evaluation is accurate to ~1e-15 relative
+                ctx.memo[key] = t
+                fv = float(v)
+                delta = Fraction(1, 10 ** 9) * (1 + Fraction(abs(fv)))
+                ctx.axiom([t], z3.And(t >= rv(Fraction(fv) - delta), t <= rv(Fraction(fv) + delta)))
+        return t
     if isinstance(v, SymScalar):
         return v.term
     if isinstance(v, (bool, np.bool_)):
@@ -576,6 +586,12 @@ class PathResult:
 
 def explore(run, max_paths=2000, on_path=None):
     """run(ctx) executes real code; all feasible paths are explored by re-execution with decision prefixes."""
+    from .npproxy import installed
+    with installed():
+        return _explore(run, max_paths, on_path)
+
+
+def _explore(run, max_paths, on_path):
     work = [[]]
     results = []
     while work:
